@@ -413,8 +413,11 @@ func (l *Linter) lintSubRoutineDeclaration(decl *ast.SubroutineDeclaration, ctx 
 	cc.ReturnType = nil
 
 	// Check ignored UNUSED_DECLARATION rule and mark as used
+	// Note: the subroutine is not registered if its name conflicts with a builtin function (reported as duplicated)
 	if l.ignore.IsEnable(UNUSED_DECLARATION) {
-		ctx.Subroutines[decl.Name.Value].IsUsed = true
+		if s, ok := ctx.Subroutines[decl.Name.Value]; ok {
+			s.IsUsed = true
+		}
 	}
 
 	return types.NeverType
